@@ -1,8 +1,30 @@
 //! mc-ids: serves C28 C48 (one module per property).
 use mc_core::Ctx;
 
+mod bech32m_ref;
 mod c28;
 mod c48;
+
+/// Strict hex decoder of the harness (lower or upper case digits, even length).
+pub fn unhex_strict(s: &str) -> Option<Vec<u8>> {
+    let b = s.as_bytes();
+    if b.len() % 2 != 0 {
+        return None;
+    }
+    fn nib(c: u8) -> Option<u8> {
+        match c {
+            b'0'..=b'9' => Some(c - b'0'),
+            b'a'..=b'f' => Some(c - b'a' + 10),
+            b'A'..=b'F' => Some(c - b'A' + 10),
+            _ => None,
+        }
+    }
+    let mut out = Vec::with_capacity(b.len() / 2);
+    for p in b.chunks(2) {
+        out.push(nib(p[0])? * 16 + nib(p[1])?);
+    }
+    Some(out)
+}
 
 fn main() {
     let ctx = Ctx::from_args();
